@@ -391,7 +391,8 @@ def job(args):
         resps = common.Driver(exe).ask([c["request"] for c in todo])
         for c, r in zip(todo, resps):
             c["resp"] = r
-            del c["request"]
+            if not c.get("shapes"):
+                del c["request"]
     return out
 
 
@@ -464,6 +465,47 @@ def parse_rows(s):
     return [[int(x) for x in row.split(",")] if row else [] for row in s.split(";")]
 
 
+def attribute(chk, case, t, k):
+    """which recorded finding, if any, explains the disagreement of observation `k` after event `t`?
+    A design merely *containing* the shape of a finding explains nothing by itself:
+    * F27 (`$shift` of a signed operand zero-fills, the simulator reads the sign): the RTLIL is evaluated once more with
+      that one cell read as an arithmetic shift; the finding explains the disagreement iff this reading gives the
+      simulator's value for that observation;
+    * F9 (the simulator loses a write through an aliased concatenation): the design is rebuilt without the assignments
+      whose target has that shape, with the same stimulus; the finding explains the disagreement iff the two sides
+      then agree on that observation at that event.
+    Returns the list of classes that explain it (empty: a violation of its own)."""
+    shapes = case.get("shapes", [])
+    out = []
+    if F_SPART in shapes and "request" in case:
+        if "alt27" not in case:
+            resp = common.Driver(EXE).ask(["(run27" + case["request"][len("(run"):]])[0]
+            d = dict(tok.split("=", 1) for tok in resp.split("\t") if "=" in tok)
+            case["alt27"] = parse_rows(d["trace"]) if d.get("eval") == "ok" else None
+        alt = case["alt27"]
+        if alt is not None and t < len(alt) and alt[t][k] == case["sim"][t][k]:
+            out.append(F_SPART)
+    if F_ALIAS in shapes and not out:
+        try:
+            b, _h, _r = build(case["seed"], case["opts"])
+            leaves = getattr(b, "f9_leaves", None)
+            if leaves:
+                c2 = design_case(case["seed"], case["opts"], drop=frozenset(leaves), events=case["events"][:t])
+                if "request" in c2 and "sim" in c2 and case["points"][k] in c2["points"]:
+                    k2 = c2["points"].index(case["points"][k])
+                    resp = common.Driver(EXE).ask([c2["request"]])[0]
+                    d = dict(tok.split("=", 1) for tok in resp.split("\t") if "=" in tok)
+                    if d.get("eval") == "ok":
+                        m2 = parse_rows(d["trace"])
+                        if t < len(m2) and t < len(c2["sim"]) and m2[t][k2] == c2["sim"][t][k2]:
+                            out.append(F_ALIAS)
+        except Exception as e:                      # attribution is best effort; failing to attribute means reporting
+            chk.hist("outcome", "attribution_error:" + errkind(e))
+    # the remaining (repaired) classes are kept as they were: they suppress nothing
+    out += [c for c in shapes if c in (F_WINDOW, F_DUPTF)]
+    return out
+
+
 def judge(chk, case):
     replay = {"design_seed": case["seed"], "stream": case["stream"], "opts": case.get("opts"),
               "how": "harness.checks.c04.design_case(design_seed, opts) rebuilds the design, the RTLIL text, the stimulus "
@@ -483,7 +525,7 @@ def judge(chk, case):
         chk.count(1)
         chk.hist("outcome", "convert_raises:" + kind)
         chk.violation(f"rtlil.convert of an elaboratable design raises {kind} in {where}: {msg[:120]} (design seed {case['seed']})",
-                      dict(replay, kind="raises", error=[kind, msg, where], classes=case.get("shapes", [])))
+                      dict(replay, kind="raises", error=[kind, msg, where], classes=[]))
         return
     if "sim_error" in case:
         kind, msg = case["sim_error"]
@@ -493,14 +535,14 @@ def judge(chk, case):
         chk.count(1)
         chk.hist("outcome", "simulator_raises:" + kind)
         chk.violation(f"the design converts to RTLIL but the simulator raises {kind}: {msg[:120]} (design seed {case['seed']})",
-                      dict(replay, kind="sim_raises", error=[kind, msg], classes=case.get("shapes", [])))
+                      dict(replay, kind="sim_raises", error=[kind, msg], classes=[]))
         return
     chk.count(1)
     d = dict(tok.split("=", 1) for tok in case["resp"].split("\t") if "=" in tok)
     if d.get("eval") != "ok":
         chk.hist("outcome", "evaluator_rejects")
         chk.violation(f"the Lean reader/validator/evaluator rejects the emitted RTLIL: {case['resp'][:200]} (design seed {case['seed']})",
-                      dict(replay, kind="rejected", response=case["resp"][:500], classes=case.get("shapes", [])))
+                      dict(replay, kind="rejected", response=case["resp"][:500], classes=[]))
         return
     model = parse_rows(d["trace"])
     model1 = parse_rows(d["trace1"]) if d.get("xdep") == "1" else model
@@ -532,7 +574,8 @@ def judge(chk, case):
                 undefined += 1
                 continue
             if mr[k] != sr[k]:
-                classes = list(case.get("shapes", []))
+                classes = attribute(chk, case, t, k)
+                chk.hist("attribution", ",".join(classes) or ("none" if case.get("shapes") else "no finding shape in the design"))
                 ev = case["events"][t - 1] if t > 0 else None
                 chk.hist("outcome", "mismatch")
                 replay2 = dict(replay, kind="mismatch", event_index=t, events=case["events"][:t], signal=case["observed_names"][k],
